@@ -55,12 +55,16 @@ func Shrink[P any](p *P, valid func(*P) bool, still func(*P) bool, budget int) (
 			progress := false
 			slices := collect(reflect.ValueOf(best).Elem(), nil, reflect.Slice)
 			for _, path := range slices {
-				n := resolve(reflect.ValueOf(best).Elem(), path).Len()
+				rv := resolve(reflect.ValueOf(best).Elem(), path)
+				if !rv.IsValid() || rv.Kind() != reflect.Slice {
+					continue
+				}
+				n := rv.Len()
 				for chunk := n; chunk >= 1; chunk /= 2 {
 					for start := 0; start+chunk <= n; {
 						c := ClonePlan(best)
 						sv := resolve(reflect.ValueOf(c).Elem(), path)
-						if start+chunk > sv.Len() {
+						if !sv.IsValid() || sv.Kind() != reflect.Slice || start+chunk > sv.Len() {
 							break
 						}
 						nv := reflect.AppendSlice(sv.Slice(0, start), sv.Slice(start+chunk, sv.Len()))
@@ -87,11 +91,17 @@ func Shrink[P any](p *P, valid func(*P) bool, still func(*P) bool, budget int) (
 		for _, path := range scalars {
 			for {
 				cur := resolve(reflect.ValueOf(best).Elem(), path)
+				if !cur.IsValid() {
+					break
+				}
 				cands := scalarCandidates(cur)
 				ok := false
 				for _, cand := range cands {
 					c := ClonePlan(best)
 					cv := resolve(reflect.ValueOf(c).Elem(), path)
+					if !cv.IsValid() {
+						break
+					}
 					setScalar(cv, cand)
 					if try(c) {
 						ok = true
